@@ -35,6 +35,67 @@ type WCase struct {
 	RDict int `json:"rdict,omitempty"`
 	// Only restricts enumeration engines to a single fault index (0 = all).
 	Only int `json:"only,omitempty"`
+	// Wild: the configuration was drawn from outside the space the format and
+	// the documentation allow (see wildConfig). The constructor refusing it is
+	// the expected answer and no verdict; if the library accepts it, everything
+	// it then emits is judged like any other output.
+	Wild bool `json:"wild,omitempty"`
+}
+
+// wildConfig moves, in one case out of 20, one field of an xz or LZMA2 writer
+// configuration out of its legal range: the properties say "every configuration
+// the library accepts", so the edge of what it accepts is part of the space.
+func wildConfig(r *sim.Rng, c *WCase) {
+	if !r.Chance(1, 20) || c.Payload.Len() > 1<<16 || c.Probe != nil {
+		return
+	}
+	var lc, lp, pb, dict, buf *int
+	var noProps *bool
+	var matcher *byte
+	switch {
+	case c.XZ != nil:
+		lc, lp, pb, dict, buf, noProps, matcher = &c.XZ.LC, &c.XZ.LP, &c.XZ.PB, &c.XZ.DictCap, &c.XZ.BufSize, &c.XZ.NoProps, &c.XZ.Matcher
+	case c.L2 != nil:
+		lc, lp, pb, dict, buf, noProps, matcher = &c.L2.LC, &c.L2.LP, &c.L2.PB, &c.L2.DictCap, &c.L2.BufSize, &c.L2.NoProps, &c.L2.Matcher
+	default:
+		return
+	}
+	switch r.Intn(7) {
+	case 0, 1:
+		// literal parameters: each within its own range, the sum (LZMA2: at most 4) not
+		*lc, *lp, *noProps = r.Intn(9), r.Intn(5), false
+		if *lc+*lp <= 4 {
+			*lc = 5 - *lp + r.Intn(4)
+		}
+	case 2:
+		*lc, *lp, *noProps = sim.Pick(r, []int{9, 12, -1, 0, 4}), sim.Pick(r, []int{5, 8, -1}), false
+	case 3:
+		*pb, *noProps = sim.Pick(r, []int{5, 6, 9, -1}), false
+	case 4:
+		*dict = sim.Pick(r, []int{1, 100, 4095, -1, -4096})
+	case 5:
+		*buf = sim.Pick(r, []int{1, 100, 272, -1})
+	case 6:
+		if c.XZ != nil && !c.XZ.NoCheckSum && r.Bool() {
+			c.XZ.CheckSum = sim.Pick(r, []byte{2, 3, 5, 7, 0x0b, 0x0f, 0x10, 0xff})
+		} else {
+			*matcher = sim.Pick(r, []byte{3, 7, 255})
+		}
+	}
+	c.Wild = true
+}
+
+// refusedWild reports (and counts) the expected end of a wild case.
+func refusedWild(c *WCase, res *WResult, x *sim.Ctx) bool {
+	if !c.Wild {
+		return false
+	}
+	if res.NewErr != nil && res.NewPanic == nil {
+		x.Count("configurations outside the legal space refused by the constructor", 1)
+		return true
+	}
+	x.Probe("illegal-configuration-accepted")
+	return false
 }
 
 // CallRes is the observed result of one API call.
